@@ -168,6 +168,41 @@ def succeeded_outputs(sn: Snapshot) -> list[str]:
     return bad
 
 
+def declaration_recorded(sn: Snapshot, line: str) -> list[str]:
+    """After an ACCEPTED `k define ...` request: the database records what was declared: the step
+    exists and is attached, every declared output is an attached file in the OUTPUT role created by
+    the step, every declared volatile output one in the VOLATILE role, and the stored resource
+    requirement is the declared one."""
+    from common import unhexlist, unhexs
+
+    t = line.split(" ")
+    cmd, wd = unhexs(t[3]), unhexs(t[4])
+    label = cmd if wd == "." else f"{cmd}  # wd={wd}"
+    outs, vols = sorted(set(unhexlist(t[7]))), sorted(set(unhexlist(t[8])))
+    declared_res = {} if t[12] == "." else {unhexs(a): int(b) for a, b in (e.split("=") for e in t[12].split(","))}
+    step = next((j for j, n in sn.nodes.items() if n[0] == "step" and n[1] == label), None)
+    bad = []
+    if step is None or sn.nodes[step][3]:
+        return [f"C08 accepted definition of {label} left no attached step"]
+    by_label = {n[1]: j for j, n in sn.nodes.items() if n[0] == "file"}
+    for paths, role in ((outs, FileRole.OUTPUT), (vols, FileRole.VOLATILE)):
+        for p in paths:
+            f = by_label.get(p)
+            if f is None or sn.nodes[f][3] or f not in sn.files:
+                bad.append(f"C08 declared {role.name} {p} of {label} is not an attached file")
+                continue
+            stored = FILE_ROLE_BY_STATE.get(FileState(sn.files[f][0]))
+            if stored != role:
+                bad.append(f"C08 {p} was declared {role.name} by {label} but is recorded as "
+                           f"{FileState(sn.files[f][0]).name}")
+            elif sn.nodes[f][2] != step:
+                bad.append(f"C08 {p} was declared by {label} but is owned by {sn.key(sn.nodes[f][2]) if sn.nodes[f][2] else None}")
+    if sn.resources.get(step, {}) != declared_res:
+        bad.append(f"C12 {label} was defined with resources {declared_res}, the stored requirement is "
+                   f"{sn.resources.get(step, {})}")
+    return bad
+
+
 def ownership_invariants(sn: Snapshot) -> list[str]:
     """C08: one owner per path, trees own what is beneath them, globs match no product."""
     bad = []
